@@ -49,6 +49,20 @@ SELECTS = [
     "SELECT a FROM t1 ORDER BY id LIMIT 1",
     "SELECT a FROM t1 ORDER BY id DESC LIMIT 1 OFFSET 1",
     "SELECT a FROM t1 ORDER BY id ASC LIMIT 2",
+    "SELECT a FROM t1 LIMIT 0",
+    "SELECT a FROM t1 ORDER BY id LIMIT 0 OFFSET 0",
+    "SELECT a FROM t1 ORDER BY id LIMIT 1 OFFSET 0",
+    "SELECT a FROM t1 ORDER BY id LIMIT 2 OFFSET 2",
+    "SELECT a FROM t1 WHERE a IN (SELECT c FROM t2 ORDER BY id LIMIT 0)",
+    "SELECT s.a FROM (SELECT a FROM t1 ORDER BY id LIMIT 0) AS s",
+    "SELECT a FROM t1 WHERE a = 0 OR b = 0",
+    "SELECT a + 0 AS x, a * 0 AS y, 0 - a AS z FROM t1 WHERE a BETWEEN 0 AND 0",
+    "SELECT a FROM t1 WHERE a IN (0)",
+    "SELECT count(a) AS n, count(DISTINCT b) AS m, sum(DISTINCT a) AS s FROM t1",
+    "SELECT a, b FROM t1 ORDER BY a DESC, id ASC LIMIT 2",
+    "SELECT a FROM t1 ORDER BY b ASC, id DESC LIMIT 1",
+    "SELECT DISTINCT a, b FROM t1 WHERE a IS NOT NULL",
+    "SELECT t1.a AS x, t2.c AS x2 FROM t1 JOIN t2 ON t1.id = t2.id AND t2.c = 0",
     "SELECT CASE WHEN a > 1 THEN b ELSE 0 END AS k FROM t1",
     "SELECT CASE a WHEN 1 THEN 5 WHEN 2 THEN 6 END AS k FROM t1",
     "SELECT coalesce(a, b) AS v FROM t1",
@@ -66,6 +80,10 @@ DML = [
     "INSERT INTO t1 (id, a, b) VALUES (1, 2, NULL), (2, 0, 1)",
     "INSERT INTO t1 (id, a) VALUES (3, 1)",
     "INSERT INTO t2 (id, c) SELECT id, a FROM t1 WHERE b > 0",
+    "INSERT INTO t1 (id, a, b) VALUES (0, 0, 0)",
+    "UPDATE t1 SET a = 0, b = a WHERE b = 0",
+    "DELETE FROM t1 WHERE a = 0",
+    "DELETE FROM t1",
 ]
 
 
